@@ -54,6 +54,28 @@ example : (Kind.all.map fun k => (pathsOf (table k).ctor .ctorErr).length) = [0,
 theorem missed_exit_leaks :
     ∃ p ∈ pathsOf [.L, .G, .rete, .U, .fin] .ctorErr, (activation p (Delta.start 0)).held = 1 := by decide
 
+/-- **C10 (lock busy).** If somebody else holds the lock when a session wants it - whatever the session's outcome,
+    cancellation while it waits included - the session takes it after the holder's release and the store ends
+    balanced; nobody is left queued for the lock. -/
+theorem busy_balanced (k : Kind) (o : Outcome) : ∀ d ∈ busyFrom (table k) o, Balanced d := by
+  cases k <;> cases o <;> decide
+
+/-- the class re-derived: a lock acquisition that outlives its `Run` (taken in a helper goroutine whose owner has
+    already returned on ctx.Done) is never paired with a release -/
+theorem orphan_acquisition_leaks : (holder.add (activation [.L] (Delta.start 0))).held = 1 := by decide
+
+/-- **C10 (entry points).** The event handlers add nothing to the session they start: for every kind and outcome the
+    store is balanced after `HandleEvents`; the seeded variant that stops a failed process once more releases twice. -/
+theorem handlers_balanced (k : Kind) (o : Outcome) : ∀ d ∈ handlerFrom false (table k) o 0, Balanced d := by
+  cases k <;> cases o <;> decide
+
+theorem extra_stop_double_release : ∃ d ∈ handlerFrom true (table .fkeygen) .never 0, d.fatal = 1 := by decide
+
+/-- a session that `Execute` leaves without stopping its processes (e.g. on an early return for an already cancelled
+    context) keeps what the constructor took -/
+theorem unstopped_constructor_leaks :
+    ∃ d ∈ andThen [Delta.start 0] (pathsOf (table .eresharing).ctor .full), d.held = 1 := by decide
+
 /-- **C10 (retried sessions).** With the retry rounds reachable through `Execute` (handleError classifies joined
     errors): constructor, TWO activations of `Run` on the same object - each leaving at any conditional return or
     running the protocol - and one `Stop`, on every combination of paths and for every kind (only the signing kinds
